@@ -421,15 +421,27 @@ func checkC11(c *run.Ctx) {
 				return t
 			}
 			nadj := r.IntN(5)
+			manyAdj := r.IntN(12) == 0
+			if manyAdj {
+				// 65 to 300 adjustments, each with a tuple of its own: the 65th, the 129th, the last one count like the first
+				nadj = []int{63, 64, 65, 66, 100, 129, 300}[r.IntN(7)]
+				c.Count("matrices_with_more_than_60_adjustments", 1)
+			}
 			for j := 0; j < nadj; j++ {
 				w := randTuple()
-				if j > 0 && r.IntN(3) == 0 { // repeated, possibly conflicting, adjustment
+				if manyAdj {
+					w[dims[0]] = fmt.Sprintf("adjv%d", j)
+				} else if j > 0 && r.IntN(3) == 0 { // repeated, possibly conflicting, adjustment
 					w = map[string]string{}
 					for k, v := range ms.Adjs[r.IntN(len(ms.Adjs))].With {
 						w[k] = v
 					}
 				}
-				switch r.IntN(12) {
+				malform := r.IntN(12)
+				if manyAdj && r.IntN(40) != 0 {
+					malform = -1 // a long list is mostly well-formed, or one bad entry among hundreds would decide every case
+				}
+				switch malform {
 				case 0:
 					delete(w, dims[r.IntN(len(dims))])
 				case 1:
@@ -453,7 +465,11 @@ func checkC11(c *run.Ctx) {
 				case 2:
 					if len(ms.Adjs) > 0 {
 						perm = map[string]string{}
-						for k, v := range ms.Adjs[r.IntN(len(ms.Adjs))].With {
+						pick := r.IntN(len(ms.Adjs))
+						if manyAdj && r.IntN(2) == 0 {
+							pick = len(ms.Adjs) - 1 - r.IntN(3) // the tail of a long list
+						}
+						for k, v := range ms.Adjs[pick].With {
 							perm[k] = v
 						}
 						break
